@@ -143,7 +143,7 @@ impl Ctx {
         assert_eq!(HSZ, 32, "Header is expected to be 4 words");
         Ctx {
             bufs: (0..6).map(|_| Arena::new((1 << 20) + (128 << 10))).collect(),
-            hdrs: Arena::new(8 << 20),
+            hdrs: Arena::new((16 << 20) + 4096),
             own: Arena::new(4096),
             fuel: true,
             collect_slots: true,
